@@ -306,7 +306,9 @@ def adjoint_subs(adj_sum_op, adj_prod_op, out_adj, arg, subs):
     relabeled_subs = tuple((relabel[k], v) for k, v in subs)
     relabeled_arg = arg(**relabel)
 
-    reduced_vars = out_adj.input_vars - relabeled_arg.input_vars
+    # Reduce over the inputs of the substituted values only; any other input of
+    # out_adj is a batch input of the Scatter, to be aggregated by the tape.
+    reduced_vars = frozenset()
     for k, v in subs:
         reduced_vars |= v.input_vars - relabeled_arg.input_vars
 
